@@ -73,7 +73,8 @@ fn gen_text(r: &mut Rng, c: &Cfg, fam: u64, big: bool) -> Vec<u8> {
     let mut t: Vec<u8> = vec![];
     if big {
         // lengths 64k +- 1 and other multiples of 64 +- 1, sparse specials, several long quoted regions
-        let k = *r.pick(&[1024usize, 1024, 1023, 512, 300, 77]);
+        // fam 98 = the run's last text: always 64 KiB +- 1
+        let k = if fam == 98 { 1024 } else { *r.pick(&[1024usize, 1024, 1023, 512, 300, 77]) };
         let len = (64 * k + r.below(3) as usize) - 1;
         soup(r, c, len, 5, 1, 4, &mut t);
         for _ in 0..r.below(6) {
@@ -212,7 +213,7 @@ fn record(args: &Args) {
     for i in 0..texts {
         let c = cfg_for(i % 40, &mut r);
         let big = i >= texts - nbig.min(texts);
-        let fam = r.below(7);
+        let fam = if i + 1 == texts && big { 98 } else { r.below(7) };
         let text = gen_text(&mut r, &c, fam, big);
         let len = text.len();
         tr.emit(json!({"e":"text","fam": if big { 99 } else { fam },"d":c.d,"q":c.q,"n":c.n,"len":len,"b":bytes_json(&text)}));
